@@ -27,6 +27,7 @@ import (
 	"strings"
 	"sync"
 	"sync/atomic"
+	"syscall"
 	"time"
 
 	tssnet "github.com/IBM/TSS/net"
@@ -427,9 +428,22 @@ func frameBurstOrder(r *prng.R, s *out.Sink, tier string, ca tlsgen.CA, pool *x5
 // moment (released from a spin barrier), trial after trial with a fresh sender each time. One writer and one connection per
 // destination: every accepted frame arrives once, unmodified, in its goroutine's order.
 func frameFirstSendRace(r *prng.R, s *out.Sink, tier string, ca tlsgen.CA, pool *x509.CertPool, srvCert *tlsgen.CertKeyPair) {
+	// (every trial leaves one connection open on the sending side — the transport has no way to close a destination — and,
+	// until the listener is stopped, one on the receiving side: the number of trials is bounded by the descriptor limit;
+	// the first version ran 3000 and died of it at trial 2029, reported as a violation: a false alarm of the harness)
 	trials := 300
 	if tier == "thorough" {
-		trials = 3000
+		trials = 1200
+	}
+	var lim syscall.Rlimit
+	if syscall.Getrlimit(syscall.RLIMIT_NOFILE, &lim) == nil {
+		if room := (int(lim.Cur) - 300) / 2; room < trials {
+			trials = room
+			s.Count(fmt.Sprintf("first-send-race/trials-bounded-by-descriptor-limit-%d", lim.Cur))
+		}
+	}
+	if trials < 20 {
+		return
 	}
 	const senders, each = 8, 4
 	lg := &liveLogger{}
